@@ -643,11 +643,22 @@ fn c13_case(r: &mut Rng, idx: u64, rep: &mut Reporter, cover: &mut crate::Cover)
     rep.stat("clouds", 1);
     // channel descriptors as read back
     let chan = |name: RecordName| pc.prototype.iter().position(|x| x.name == name);
+    // With complete limits of the attribute's own type the file holds exactly the limits handed to the writer:
+    // those are "the point cloud's limits" then, whatever the reader's descriptor says about them.
+    let intended = limit_class == 1 && drop_lines.is_empty();
+    let il = if intended { meta.intensity_limits.clone().flatten() } else { pc.intensity_limits.clone() };
+    let cl = if intended { meta.color_limits.clone().flatten() } else { pc.color_limits.clone() };
+    if intended {
+        cover.hit("c13:judged-against-written-limits");
+    }
+    // (the reader keeps working with its own descriptor `pc`; only the expectation uses `il` / `cl`)
+    let il = if il.is_some() { il } else { pc.intensity_limits.clone() };
+    let cl = if cl.is_some() { cl } else { pc.color_limits.clone() };
     let chans: [(Option<usize>, Option<RecordValue>, Option<RecordValue>); 4] = [
-        (chan(Intensity), pc.intensity_limits.as_ref().and_then(|l| l.intensity_min.clone()), pc.intensity_limits.as_ref().and_then(|l| l.intensity_max.clone())),
-        (chan(ColorRed), pc.color_limits.as_ref().and_then(|l| l.red_min.clone()), pc.color_limits.as_ref().and_then(|l| l.red_max.clone())),
-        (chan(ColorGreen), pc.color_limits.as_ref().and_then(|l| l.green_min.clone()), pc.color_limits.as_ref().and_then(|l| l.green_max.clone())),
-        (chan(ColorBlue), pc.color_limits.as_ref().and_then(|l| l.blue_min.clone()), pc.color_limits.as_ref().and_then(|l| l.blue_max.clone())),
+        (chan(Intensity), il.as_ref().and_then(|l| l.intensity_min.clone()), il.as_ref().and_then(|l| l.intensity_max.clone())),
+        (chan(ColorRed), cl.as_ref().and_then(|l| l.red_min.clone()), cl.as_ref().and_then(|l| l.red_max.clone())),
+        (chan(ColorGreen), cl.as_ref().and_then(|l| l.green_min.clone()), cl.as_ref().and_then(|l| l.green_max.clone())),
+        (chan(ColorBlue), cl.as_ref().and_then(|l| l.blue_min.clone()), cl.as_ref().and_then(|l| l.blue_max.clone())),
     ];
     for (ni, nc) in [(true, true), (false, false), (true, false), (false, true)] {
         let o = Opts((Opts::DEFAULT.0 & !0b11100) | if ni { 8 } else { 0 } | if nc { 16 } else { 0 }); // i2c off so that colour is the stored colour
